@@ -49,6 +49,7 @@ THEOREMS = [
     "Typedpy.C13.default_none_kw_equiv",
     "Typedpy.C13.dedup_examples",
     "Typedpy.C13.coll_of_union_tree",
+    "Typedpy.C13.tuple_triple_equiv",
     "Typedpy.C13.equiv_example",
 ]
 RULE = ("class bodies of 1-3 fields; each field an abstract meaning tree (scalar / constrained field literal / bare or "
@@ -88,8 +89,8 @@ RULE = ("class bodies of 1-3 fields; each field an abstract meaning tree (scalar
         "field set, _required, defaults, factory probe, constructor + Serializer on the stream, Deserializer round trip of the first "
         "serialized instances, structure_to_schema. Oracle-only streams also cover date / time types (8 families) and mutable defaults (4 families)")
 ASSUMPTIONS = [
-    "vocabulary: int/str/float/bool/Any, list/set/frozenset/deque/single- and two-argument tuple and their typing aliases, dict/Dict/Map, Optional/Union/AnyOf/|, "
-    "constrained Integer/Float/Number/String/Enum literals, Structure classes of a fixed pool, literal alternatives (`X | 529`); tuples of three or more elements, date/time types (oracle-only stream) are not in the spelling grammar",
+    "vocabulary: int/str/float/bool/Any, list/set/frozenset/deque/one-, two- and three-argument tuple and their typing aliases, dict/Dict/Map, Optional/Union/AnyOf/|, "
+    "constrained Integer/Float/Number/String/Enum literals, Structure classes of a fixed pool, literal alternatives (`X | 529`); tuples of four or more elements, date/time types (oracle-only stream) are not in the spelling grammar",
     "defaults are immutable scalar literals (int/str/float/bool), the literal `= None` (validated, but not a default afterwards), `default=None` (the keyword's own default: no default) "
     "and default factories; mutable defaults (oracle-only stream, open finding) are outside the modelled domain",
     "the Structure classes named by spellings live in one helper module (all variants and the value stream share the class objects); field names of a class body are distinct",
